@@ -30,6 +30,7 @@ type Scenario struct {
 	Shards  int // worker processes for the final bound (0 = 1)
 	Setup   func() // process-level switches (PoolChoice, LimitChoice …), run in the worker
 	Fine    bool   // statement-level scheduling points (vrt.Fine) are live in this scenario
+	NoFine  bool   // never derive a +stmt variant from this scenario
 }
 
 // WithFine returns, for every scenario, a copy named "<name>+stmt" in which the statement-level
@@ -37,8 +38,8 @@ type Scenario struct {
 func WithFine(scs []Scenario, p int) []Scenario {
 	var out []Scenario
 	for _, sc := range scs {
-		if sc.P == 0 {
-			continue // pure environment enumeration: no scheduling dimension to refine
+		if sc.NoFine {
+			continue // operation-sequence enumeration run to quiescence step by step: nothing to refine
 		}
 		sc.Name += "+stmt"
 		sc.Fine = true
